@@ -151,49 +151,14 @@ def run(ctx: Ctx) -> None:
     plural = models.plural_spec
 
     # ---- retagging oracle (PAI of Parser.parse, memoised) -----------------------------------
-    @functools.lru_cache(maxsize=None)
-    def retag_memo(prev, kind, text):
-        if kind not in retag_kinds:
-            return kind
-        pv = None
-        if prev is not None:
-            pk, pt = prev
-            pv = (pk, pt if pt is not None else (lambda: SStr.atom("prevtext", free=True, excludes=frozenset())))
-        outs = models.retag_outcomes(e, pv, kind, text if text is not None else (lambda: SStr.atom("curtext", free=True)))
-        kinds = {o[0] for o in outs}
-        if len(kinds) != 1:
-            raise AnalysisError(f"retagging of {kind}({text}) after {prev} is not determined: {sorted(map(str, kinds))}")
-        return next(iter(kinds))
-
-    # which token kinds does Parser.parse look at?  (string constants compared with t.type)
-    parse_fn = repo.func("parser.Parser.parse")
-    retag_kinds = set()
-    for n in ast.walk(parse_fn):
-        if isinstance(n, ast.Compare) and isinstance(n.left, ast.Attribute) and n.left.attr == "type":
-            for c in n.comparators:
-                try:
-                    v = fold(c)
-                except Exception:
-                    continue
-                for x in v if isinstance(v, (tuple, list, frozenset, set)) else [v]:
-                    if isinstance(x, str):
-                        retag_kinds.add(x)
-    ctx.units["retagged_token_kinds"] = sorted(retag_kinds)
-
-    def retag(prev, kind, text):
-        r = retag_memo(prev, kind, text)
-        if isinstance(r, str) and r.startswith("raise:"):
-            raise _Raised(r)
-        return r
-
-    class _Raised(Exception):
-        pass
+    retag = models.make_retag(e)
+    ctx.units["retagged_token_kinds"] = sorted(retag.inspected)
 
     def accepts(items):
         try:
             return G.run_items(items, retag)
-        except _Raised as ex:
-            return False, f"Parser.parse raises {str(ex)[6:]} in its token loop", []
+        except models.RetagRaised as ex:
+            return False, f"Parser.parse raises {ex} in its token loop", []
 
     # ---- V1 / V9 ------------------------------------------------------------------------------
     ctx.rule("V1", "every block type of the grammar has a schema file <type>.json declaring that __type__, is in COMPOSITE_NAMES | SINGLETON_COMPOSITE_NAMES (printer assertion), and conversely", 20)
@@ -384,14 +349,22 @@ def run(ctx: Ctx) -> None:
                     lits.add(x)
     want = set(special)
     ctx.check(lits == want, "V8", "pprint.PrettyPrinter._format dispatch literals", repo.loc("pprint", fmt), f"literals = grammar block rules = {sorted(want)}", f"_format dispatches on {sorted(lits)} but the grammar's keyword-introduced rules are {sorted(want)}")
+    # which keys does compute_max_key_length count?  (evaluated, not read off a variable name)
+    from .. import layout as _layout
+    from ..absval import HDict as _HD
+
     cml = repo.func("pprint.PrettyPrinter.compute_max_key_length")
-    ign = None
-    for n in ast.walk(cml):
-        if isinstance(n, ast.Assign) and isinstance(n.targets[0], ast.Name) and n.targets[0].id == "ignore_list":
-            ign = set(fold(n.value))
-    if ign is None:
-        raise AnalysisError("anchor vanished: ignore_list in compute_max_key_length")
-    ctx.check(ign == want, "V8", "pprint.PrettyPrinter.compute_max_key_length ignore_list", repo.loc("pprint", cml), "equals the block rules", f"ignore_list {sorted(ign)} differs from the specially written keywords {sorted(want)}")
+    I_ = e.interp(allow_fork=False)
+    counted_bad = []
+    for kw in sorted(want):
+        val = _layout.cdict([("__type__", kw)]) if kw in ("metadata", "validation", "values", "connectionoptions") else ([_layout.word("p")] if kw == "projection" else ([(1, 2)] if kw in ("points", "pattern") else _layout.cdict([("k", _layout.word("v"))])))
+        d = _layout.cdict([("__type__", "layer"), ("ab", _layout.word("x")), (kw, val)])
+        outs = I_.explore("pprint.PrettyPrinter.compute_max_key_length", lambda d=d: (models.printer(I_), [d], {}))
+        if len(outs) != 1 or outs[0].kind != "return":
+            raise AnalysisError(f"compute_max_key_length not evaluable: {[(o.kind, o.exc) for o in outs]}")
+        if outs[0].value != 2:
+            counted_bad.append((kw, outs[0].value))
+    ctx.check(not counted_bad, "V8", "pprint.PrettyPrinter.compute_max_key_length skips the specially written keywords", repo.loc("pprint", cml), "none of them widens the alignment column", f"specially written keywords are counted for the alignment column: {counted_bad}")
     ended = {k for k, v in special.items() if v["end"]}
     want_complex = set(gtypes) | ended
     ctx.check(set(COMPLEX_TYPES) == want_complex, "V8", "tokens.COMPLEX_TYPES", "mappyfile/tokens.py", "equals END-terminated constructs of the grammar", f"COMPLEX_TYPES differs from the grammar's END-terminated constructs: missing {sorted(want_complex - set(COMPLEX_TYPES))}, extra {sorted(set(COMPLEX_TYPES) - want_complex)}")
